@@ -23,6 +23,7 @@ EXPLANATION = (
     "evaluated over all feasible (failed>0, warning>0, all-failed) combinations. Decides the "
     "bookkeeping for every handler yield sequence and sub-operation outcome at once; does not "
     "decide what the C-STORE sub-operation itself does."
+    " Third session: (classification) the tally segment of _get_scp / _move_scp is evaluated with the checker's interpreter for one status of every category of the storage table, an unknown status and a raising send: Success counts as completed, Warning as warning, everything else as failed, and remaining drops by one each time; (status-known) borrowed from C28's docs-agreement; (final-status) the handler-yields-Success branch is enumerated over the counter cases."
 )
 
 FIELDS = {
@@ -369,7 +370,7 @@ def check_subop_classification(repo: Repo, rep: Report, rule: str = "classificat
     for q in ("_get_scp", "_move_scp"):
         fn = repo.func("service_class", f"QueryRetrieveServiceClass.{q}")
         fq = f"service_class.QueryRetrieveServiceClass.{q}"
-        # the statements from the try that sends the sub-operation up to (not including) the Pending response fields
+        # the statements from the try that sends the sub-operation up to (not including) the Pending response being sent
         blk = None
         for p in ast.walk(fn):
             for f_ in ("body", "orelse"):
@@ -382,8 +383,6 @@ def check_subop_classification(repo: Repo, rep: Report, rule: str = "classificat
         i0 = next(i for i, s_ in enumerate(blk) if isinstance(s_, ast.Try) and any(isinstance(c, ast.Call) and norm(c.func).endswith("send_c_store") for c in ast.walk(s_)))
         seg = []
         for s_ in blk[i0:]:
-            if isinstance(s_, ast.Assign) and norm(s_.targets[0]).startswith("rsp."):
-                break
             if isinstance(s_, ast.Expr) and isinstance(s_.value, ast.Call) and norm(s_.value.func).endswith("send_msg"):
                 break
             seg.append(s_)
@@ -398,7 +397,7 @@ def check_subop_classification(repo: Repo, rep: Report, rule: str = "classificat
 
             assoc = Obj("Association", {"@send_c_store": send, "is_established": True})
             me = Obj("QueryRetrieveServiceClass", {"assoc": assoc, "ae": Obj("ApplicationEntity", {"ae_title": "AE"})})
-            env = {"self": me, "store_assoc": assoc, "req": Obj("C_GET", {"MessageID": 1}), "ii": 0, "dataset": Obj("Dataset", {"SOPInstanceUID": "1.2"}), "store_results": results, "failed_instances": [], "_add_failed_instance": lambda *_a: None, "msg_id": 1}
+            env = {"self": me, "store_assoc": assoc, "req": Obj("C_GET", {"MessageID": 1}), "ii": 0, "dataset": Obj("Dataset", {"SOPInstanceUID": "1.2"}), "store_results": results, "failed_instances": [], "_add_failed_instance": lambda *_a: None, "msg_id": 1, "rsp": Obj("DIMSEPrimitive", {})}
             g = {"STORAGE_SERVICE_CLASS_STATUS": storage}
             g.update(consts)
             it = Interp(g, method_resolver=resolver)
